@@ -372,11 +372,19 @@ func Start(xmlText string, vars map[string]any, opts ...bpmn.Option) (*Inst, *sc
 	h.Write([]byte(xmlText))
 	if h.Sum32()%4 == 0 && len(opts) == 0 {
 		if d0, err := schema.Parse([]byte(earlierDocument(xmlText))); err == nil {
-			other := map[string]any{}
+			other := map[string]any{"vu": 1} // `vu`: a variable only the EARLIER document's instance ever defines
 			for k := range vars {
 				other[k] = 2
 			}
 			if in0, err := StartDefs(d0, other); err == nil || in0 != nil {
+				// a few steps, so that its tokens evaluate conditions, reach gateways and events
+				for k := 0; k < 3 && in0.Quiesce(2*time.Second); k++ {
+					p0 := in0.Pending()
+					if len(p0) == 0 {
+						break
+					}
+					in0.AnswerOK(p0[0], nil)
+				}
 				in0.Quiesce(2 * time.Second)
 				in0.Stop(2 * time.Second)
 				EarlierDocuments++
